@@ -227,8 +227,10 @@ def larger_allocations(chunk, replay=None):
             # an irregular lattice: rows of different heights, each row cut at its own x positions
             spec, y = [], 0.0
             for _ in range(rng.randint(1, 4)):
-                h = rng.choice([1.0, 2.0, 0.5, 3.0])
-                xs = sorted({0.0, 12.0, *[rng.choice([2.0, 3.0, 4.5, 6.0, 7.25, 9.0, 10.5]) for _ in range(rng.randint(0, 4))]})
+                # decimal values that are not representable in binary are mixed in (halving then leaves rounding noise between siblings: the
+                # operations must still succeed; added after seed C12-9, an area tolerance far below that noise)
+                h = rng.choice([1.0, 2.0, 0.5, 3.0, 0.7, 1.1, 0.9])
+                xs = sorted({0.0, 12.0, *[rng.choice([2.0, 3.0, 4.5, 6.0, 7.25, 9.0, 10.5, 3.3, 6.6, 10.1, 0.35]) for _ in range(rng.randint(0, 4))]})
                 for x0, x1 in zip(xs, xs[1:]):
                     al = {}
                     for m in ("M0", "M1", "M2"):
@@ -268,24 +270,37 @@ def larger_allocations(chunk, replay=None):
                 bad = f"must_be_refined({t}) = {must} but {sum(want_split)} cells qualify"
             if (cells_of(b) != cells_of(a)) != must:
                 bad = bad or f"must_be_refined({t}) = {must} but refine changed the allocation: {cells_of(b) != cells_of(a)}"
-            exp = []
+            exp, ties = [], []
             for i, (r, al, d) in enumerate(spec):
                 if not want_split[i]:
                     exp.append((round(r[0], 9), round(r[1], 9), round(r[2], 9), round(r[3], 9), d, tuple(sorted((k, round(v, 12)) for k, v in al.items())), i in fixed_idx))
                     continue
                 boxes = [(r[0] - r[2] / 2, r[1] - r[3] / 2, r[0] + r[2] / 2, r[1] + r[3] / 2)]
+                tie = False
                 for _ in range(lv):
                     nxt = []
                     for (x0, y0, x1, y1) in boxes:
+                        if abs((x1 - x0) - (y1 - y0)) <= 1e-9 * max(x1 - x0, y1 - y0):
+                            tie = True          # a square (up to rounding): either side is "the longer one"
                         if (x1 - x0) >= (y1 - y0):
                             nxt += [(x0, y0, (x0 + x1) / 2, y1), ((x0 + x1) / 2, y0, x1, y1)]
                         else:
                             nxt += [(x0, y0, x1, (y0 + y1) / 2), (x0, (y0 + y1) / 2, x1, y1)]
                     boxes = nxt
+                if tie:
+                    # the pieces of this cell are checked without fixing the direction of the cuts made on a square: 2^levels cells of equal
+                    # area inside the parent, with the depth raised and the ratios inherited
+                    px0, py0, px1, py1 = r[0] - r[2] / 2, r[1] - r[3] / 2, r[0] + r[2] / 2, r[1] + r[3] / 2
+                    inside = [c for c in cells_of(b) if px0 - 1e-9 <= c[0] - c[2] / 2 and c[0] + c[2] / 2 <= px1 + 1e-9 and py0 - 1e-9 <= c[1] - c[3] / 2 and c[1] + c[3] / 2 <= py1 + 1e-9]
+                    if len(inside) != 2 ** lv or any(abs(c[2] * c[3] - r[2] * r[3] / 2 ** lv) > 1e-9 * r[2] * r[3] or c[4] != d + lv or
+                                                    c[5] != tuple(sorted((k, round(v, 12)) for k, v in al.items())) for c in inside):
+                        bad = bad or "a cell that becomes square while it is halved is not split into 2^levels equal cells with the depth raised"
+                    ties.extend(inside)
+                    continue
                 for (x0, y0, x1, y1) in boxes:
                     exp.append((round((x0 + x1) / 2, 9), round((y0 + y1) / 2, 9), round(x1 - x0, 9), round(y1 - y0, 9), d + lv,
                                 tuple(sorted((k, round(v, 12)) for k, v in al.items())), False))
-            if sorted(exp) != cells_of(b):
+            if sorted(exp) != sorted(c for c in cells_of(b) if c not in ties):
                 bad = bad or "refine did not split exactly the qualifying cells into 2^levels equal cells by halving the longer side with the depth raised"
             # (2) the refine-while-needed loop terminates (bounded here: 6 rounds, 300 cells)
             cur, rounds = a, 0
